@@ -8,6 +8,10 @@ UNITS = {
     'n_t1': dict(cpp='harness/n_t1.cpp', cdefs=('YK_VAL_CAP=16',), cuts=('delete_ofILb0', 'get_child_of', 'interior_node9delete_of')),
     'n_t1s': dict(cpp='harness/n_t1.cpp', cdefs=('YK_VAL_CAP=16', 'YK_NALLOC=40')),
     'n_c16': dict(cpp='harness/n_c16.cpp', cdefs=('YK_HAVE_ON_SLEEP', 'YK_HAVE_THREAD_JOIN', 'YK_VAL_CAP=16'), extra_c=('rt/join_epoch_gc.c',), extra_roots=('yk_on_sleep',), sessions=2),
+    'n_c14_s1': dict(cpp='harness/n_c16.cpp', cdefs=('YK_HAVE_ON_SLEEP', 'YK_HAVE_THREAD_JOIN', 'YK_VAL_CAP=16'), extra_c=('rt/join_epoch_gc.c',), extra_roots=('yk_on_sleep',), sessions=1),
+    'n_c14_s3': dict(cpp='harness/n_c16.cpp', cdefs=('YK_HAVE_ON_SLEEP', 'YK_HAVE_THREAD_JOIN', 'YK_VAL_CAP=16'), extra_c=('rt/join_epoch_gc.c',), extra_roots=('yk_on_sleep',), sessions=3),
+    's_version': dict(cpp='harness/s_version.cpp', coroutines=('T_lock_a', 'T_lock_b', 'T_reader'), inline_all=True),
+    's_version2': dict(cpp='harness/s_version.cpp', coroutines=('T_lock_a', 'T_flagger'), inline_all=True),
     'k_value': dict(cpp='harness/k_value.cpp', cdefs=('YK_VAL_CAP=48',)),
 }
 
@@ -34,6 +38,11 @@ _T1_BIG = [H('n_t1', 'H_t1_put_n14', 'put into T1(14) (last insert before the no
            H('n_t1s', 'H_t1_put_split', 'put into a FULL root border: border_split + new interior root; map semantics, RI, C12', T1B, tier='thorough', timeout=3400)]
 
 REGISTRY = {
+    'C14': [
+        H('n_c16', 'H_c14_enter_leave_seq', 'real enter/leave on an ARBITRARY slot table: OK iff a slot is free, exclusive slot, counted until leave, reuse', 'capacity 2; all 2^2 occupancy states, arbitrary epochs'),
+        H('n_c14_s1', 'H_c14_enter_leave_seq', 'same, capacity 1', 'capacity 1'),
+        H('n_c14_s3', 'H_c14_enter_leave_seq', 'same, capacity 3', 'capacity 3; all 2^3 occupancy states'),
+    ],
     'C16': [
         H('n_c16', 'H_c16_epoch_runs_every_cycle', 'init() from the state ANY number of earlier cycles can leave: slots free/reusable, real epoch_thread body keeps advancing the epoch', 'sessions=2; stop flags/epoch/slot residue arbitrary; 3 epoch periods', tags=(1,)),
         H('n_c16', 'H_c16_gc_runs_every_cycle', 'init() from any earlier state: real gc_thread body reclaims an eligible retired block and keeps running', 'sessions=2; 2 gc periods', tags=(2,)),
@@ -59,6 +68,8 @@ REGISTRY = {
         H('k_version', 'H_ver_stable', 'get_stable_version returns the word itself, only when clean', W64),
         H('k_version', 'H_ver_stable_dirty_waits', 'exit test of get_stable_version is false on every locked/dirty word', W64),
         H('k_version', 'H_ver_lock_cycle', 'lock; flag; unlock: stable versions equal iff nothing flagged', W64),
+        H('s_version2', 'H_ver_locker_vs_flagger', 'locker (lock; set flags; unlock) || thread flipping root/deleted through the atomic setters without the lock: every field keeps the value of its last writer', 'NT=2, CTX=5 contexts + fair continuation, hook granularity, SC', sync=3, timeout=900),
+        H('s_version', 'H_ver_two_lockers_one_reader', 'two lockers (lock; set flags; unlock) || reader taking two stable versions: mutual exclusion, no dirty stable version, equal versions => no flagged unlock in between, quiescent word exact', 'NT=3, CTX=5 contexts + fair continuation, hook granularity, SC; flags symbolic, counters at the wrap boundary', sync=3, timeout=900),
     ],
     'C19': [
         H('k_perm', 'H_perm_insert', 'permutation::insert_rank + get_cnk/get_index_of_rank/get_lowest_key_pos vs positional spec', FULL64),
@@ -71,6 +82,10 @@ REGISTRY = {
 }
 
 LEVEL_TEXT = {
+    'C14': dict(text='Sequential half: one real enter/leave step from an ARBITRARY slot table (any history) for capacities 1, 2, 3 (YAKUSHIMA_MAX_PARALLEL_SESSIONS is a '
+                     'compile flag: one encoding per capacity). Concurrent half (distinct tokens, capacity, WARN_MAX_SESSIONS only if every slot was seen occupied) by '
+                     'the sequentialized-schedule harnesses where registered.',
+                note='Trusted: clang++-14, ll2c, CBMC+kissat. Larger capacities repeat the same loop body.', ref='DESIGN.md 4/C14', sched=True),
     'C16': dict(text='The real init()/fin()/epoch_thread()/gc_thread() bodies are executed symbolically from an ARBITRARY residue of earlier cycles (stop flags, epoch, '
                      'slot flags symbolic), so one discharged query covers any number of repetitions; a concrete two-cycle run with sessions left open is added.',
                 note='Background threads are modelled by running their real bodies on the calling thread (join = run to completion); std::thread start/join stubbed; '
